@@ -114,6 +114,7 @@ fn main() {
             let file = PathBuf::from(args.get(3).unwrap_or_else(|| usage()));
             let all = props::all();
             let Some(p) = all.iter().find(|p| p.id == id) else { usage() };
+            runner::install_crash_handler(p.id, &verif_dir());
             let mut l = Local::new();
             match run_replay(p, &file, &mut l) {
                 Ok(Ok(())) => println!("replay passed: {}", file.display()),
